@@ -47,6 +47,8 @@ def _concat(e):
 def run(ck, m):
     from rules.common import rule_memo_safety
     rule_memo_safety(ck, m, "MEMO", "C12")          # first: a memoised helper also hides the code it wraps from the rules below
+    from rules.common import rule_memo_key
+    rule_memo_key(ck, m, "MEMO")
     fold = Folder(m.tree(CS))
     env = fold.env
     # ---- R1 ----------------------------------------------------------------------------
@@ -437,6 +439,40 @@ def run(ck, m):
             or (isinstance(e0, ast.Name) and any(isinstance(c_, ast.Call) and isinstance(c_.func, ast.Attribute) and c_.func.attr == "lower" for c_ in ast.walk(trace(gtnv, e0))))
         ck.ob("R5", r, lowered, f"get_terminal_name_version returns the name as `{short(e0, 50)}` on this path: it must be lower-cased on every path (the style support tests compare with 'kitty', 'konsole', 'wezterm', 'iterm2')",
               stmt="get_terminal_name_version: name lower-cased on every return")
+    # what the terminal replied takes precedence: the environment (TERM_PROGRAM...) is only read into the result where the reply did not match
+    # (an inherited / forwarded TERM_PROGRAM names another terminal than the one that answers XTVERSION)
+    from tiv.sem import tconds as _tconds5
+    def _is_env(x):
+        return (isinstance(x, ast.Attribute) and norm(x) in ("os.environ", "environ")) or (isinstance(x, ast.Call) and (call_name(x) or "").split(".")[-1] == "getenv") \
+            or (isinstance(x, ast.Name) and x.id == "environ")
+    def _env_sel(e, acc):
+        """[(conditions under which this sub-expression is what gets selected)] for every environment read inside e"""
+        if isinstance(e, ast.IfExp):
+            return _env_sel(e.test, acc) + _env_sel(e.body, acc + [norm(e.test)]) + _env_sel(e.orelse, acc + ["not " + norm(e.test)])
+        if isinstance(e, ast.BoolOp):
+            out = []
+            for i_, v_ in enumerate(e.values):
+                pre = [("not " if isinstance(e.op, ast.Or) else "") + norm(u_) for u_ in e.values[:i_]]
+                out += _env_sel(v_, acc + pre)
+            return out
+        if _is_env(e):
+            return [acc]
+        out = []
+        for ch_ in ast.iter_child_nodes(e):
+            out += _env_sel(ch_, acc)
+        return out
+    n_env = 0
+    for r in nrets:
+        tv = trace(gtnv, r.value, use=r)
+        ctl = _tconds5(gtnv, r)
+        for sel in _env_sel(tv, []):
+            n_env += 1
+            allc = list(sel) + sorted(ctl)
+            no_reply = any(c_.startswith("not ") and "XTVERSION_re" in c_ for c_ in allc)
+            ck.ob("R5", r, no_reply, "get_terminal_name_version takes the terminal's identity from the environment on a path where the XTVERSION reply was not (yet) found wanting "
+                  f"(conditions: {[c_[:60] for c_ in allc][:4]}): the environment is only the fallback for a missing reply - an inherited or forwarded TERM_PROGRAM otherwise overrides what the terminal itself answers",
+                  stmt="get_terminal_name_version: environment read only where the reply did not match")
+    ck.expect(n_env >= 1, "get_terminal_name_version: the TERM_PROGRAM fallback not found in the returned value")
     for fn_, nm in ((ks, "KittyImage"), (isup, "ITerm2Image")):
         ini = next((st for t, st in stores_in(ast.Module(body=fn_.body, type_ignores=[])) if norm(t) == "cls._supported" and norm(st.value) == "False"), None)
         ck.ob("R5", fn_, ini is not None, f"{nm}.is_supported must default to not supported when there is no (valid) reply", stmt=f"{nm}.is_supported: defaults to False")
